@@ -23,8 +23,10 @@ def engine():
 
 def contracts_for(pid, only=None):
     out = []
+    # C14's deductive part *is* C08's frame argument (no shared writes): every contract of C08 belongs to it
+    want = {pid} | ({"C08"} if pid == "C14" else set())
     for (key, inst), c in REG.items():
-        if pid in c.props and not c.trusted and not c.bounded_only:
+        if want & set(c.props) and not c.trusted and not c.bounded_only:
             if only and only not in c.name:
                 continue
             out.append(c)
